@@ -178,6 +178,16 @@ func checkStack(prop string, sc *stackCase, tc *tableCache, res *workerResult) {
 			res.violate("merged:open-fails:"+errClass(err.Error()), fmt.Sprintf("%v: NewMerged: %v", sc, err), sc)
 			return
 		}
+		// the view's update-index limits are those of its oldest and newest table (tables sit at update index
+		// position+1 in this family)
+		if !suppress {
+			var mn, mx uint64
+			if err := guard(func() error { mn, mx = m.MinUpdateIndex(), m.MaxUpdateIndex(); return nil }); err != nil {
+				res.violate("merged:limits-panic", fmt.Sprintf("%v: Min/MaxUpdateIndex: %v", sc.Pats, err), sc)
+			} else if mn != 1 || mx != uint64(len(sc.Pats)) {
+				res.violate("merged:limits-wrong", fmt.Sprintf("view of %d tables at update indices 1..%d reports limits [%d,%d]", len(sc.Pats), len(sc.Pats), mn, mx), sc)
+			}
+		}
 		if prop == "C11" {
 			checkRefsForMerged(sc, view, m, model, res)
 			continue
@@ -253,8 +263,71 @@ func enumStacks(pats []pattern, maxK int, yield func([]pattern)) {
 	rec(nil)
 }
 
+// checkMergedRefusals: a merged view is only defined over tables of one hash type whose update-index ranges
+// strictly increase; NewMerged must refuse everything else (touching ranges, reversed order, a foreign hash type)
+// and must accept an empty list, whose limits are [0,0].
+func checkMergedRefusals(res *workerResult) {
+	mk := func(min, max uint64, sha bool) reftable.Table {
+		c := &tablegen.Case{Family: "stack", Cfg: tablegen.Cfg{SHA256: sha}, Min: min, Max: max}
+		hs := c.Cfg.HashSize()
+		c.Refs = []refdb.Ref{{Name: "a", UpdateIndex: min, Kind: 1, Value: tablegen.Oid("v", hs)}}
+		data, rej, perr := writeTable(c)
+		if rej != "" || perr != "" {
+			panic("refusal fixture cannot be written: " + rej + perr)
+		}
+		rd, err := reftable.NewReader(&reftable.ByteBlockSource{Source: data}, fmt.Sprintf("t%d-%d", min, max))
+		if err != nil {
+			panic(err)
+		}
+		return rd
+	}
+	type tc struct {
+		name string
+		tabs []reftable.Table
+		sha  bool
+		ok   bool
+	}
+	for _, c := range []tc{
+		{"touching ranges [1,2] [2,3]", []reftable.Table{mk(1, 2, false), mk(2, 3, false)}, false, false},
+		{"overlapping ranges [1,3] [2,4]", []reftable.Table{mk(1, 3, false), mk(2, 4, false)}, false, false},
+		{"reversed order [3,4] [1,2]", []reftable.Table{mk(3, 4, false), mk(1, 2, false)}, false, false},
+		{"equal single indices [2,2] [2,2]", []reftable.Table{mk(2, 2, false), mk(2, 2, false)}, false, false},
+		{"a sha256 table in a sha1 view", []reftable.Table{mk(1, 1, false), mk(2, 2, true)}, false, false},
+		{"a sha1 table in a sha256 view", []reftable.Table{mk(1, 1, false)}, true, false},
+		{"adjacent ranges [1,2] [3,3]", []reftable.Table{mk(1, 2, false), mk(3, 3, false)}, false, true},
+		{"no table at all", nil, false, true},
+	} {
+		res.Checks++
+		var m *reftable.Merged
+		err := guard(func() error {
+			var err error
+			m, err = reftable.NewMerged(c.tabs, hashID(c.sha))
+			return err
+		})
+		if c.ok && err != nil {
+			res.violate("merged:refuses-legal-stack", fmt.Sprintf("NewMerged refuses %s: %v", c.name, err), &stackCase{Family: "stack"})
+		}
+		if !c.ok && err == nil {
+			res.violate("merged:accepts-illegal-stack", fmt.Sprintf("NewMerged accepts %s: newest-wins is not defined for it", c.name), &stackCase{Family: "stack"})
+		}
+		if c.ok && err == nil && len(c.tabs) == 0 {
+			if e2 := guard(func() error {
+				if m.MinUpdateIndex() != 0 || m.MaxUpdateIndex() != 0 {
+					return fmt.Errorf("limits of an empty view are [%d,%d]", m.MinUpdateIndex(), m.MaxUpdateIndex())
+				}
+				return nil
+			}); e2 != nil {
+				res.violate("merged:empty-view-limits", e2.Error(), &stackCase{Family: "stack"})
+			}
+		}
+	}
+}
+
 func runStacks(prop, tier string, wi, wn int, p plan, res *workerResult) {
 	quick := tier != "thorough"
+	if prop == "C03" && wi == 0 {
+		checkMergedRefusals(res)
+	}
 	shas := []bool{false}
 	if !quick {
 		shas = []bool{false, true}
@@ -502,6 +575,11 @@ func replayStack(prop string, raw json.RawMessage, res *workerResult) error {
 	var sc stackCase
 	if err := json.Unmarshal(raw, &sc); err != nil {
 		return err
+	}
+	if len(sc.Pats) == 0 {
+		// a violation of the fixed refusal cases
+		checkMergedRefusals(res)
+		return nil
 	}
 	hs := 20
 	if sc.SHA256 {
